@@ -166,7 +166,21 @@ pub fn run(variant: Variant, ops: &[HOp]) -> Result<Info, (String, String)> {
                                 continue;
                             };
                             #[cfg(not(feature = "interp_no_to_dyn"))]
-                            let converted = std::panic::catch_unwind(std::panic::AssertUnwindSafe(|| to_dyn!(Cell64, r2)));
+                            let evaluations = core::cell::Cell::new(0u32);
+                            #[cfg(not(feature = "interp_no_to_dyn"))]
+                            let converted = std::panic::catch_unwind(std::panic::AssertUnwindSafe(|| {
+                                to_dyn!(Cell64, {
+                                    evaluations.set(evaluations.get() + 1);
+                                    r2.clone()
+                                })
+                            }));
+                            // the macro's argument is an expression like any function argument: evaluated exactly once
+                            #[cfg(not(feature = "interp_no_to_dyn"))]
+                            {
+                                if converted.is_ok() && evaluations.get() != 1 {
+                                    return fail(&format!("C17/to_dyn/argument-evaluations/{}", vname), format!("step {}: to_dyn!(Cell64, <expression>) on a {} reference evaluated its argument expression {} times", step, vname, evaluations.get()));
+                                }
+                            }
                             match converted {
                                 Ok(d) => Handle::Dyn(d),
                                 Err(_) => return fail(&format!("C17/to_dyn-panics/{}", vname), format!("step {}: to_dyn!(Cell64, <{} reference>) panicked although the macro lists this variant", step, vname)),
